@@ -164,6 +164,16 @@ func c06Variants() (vs []c06Variant) {
 	m.SetEdns0(1232, false)
 	b, _ := m.Pack()
 	vs = append(vs, c06Variant{"control-edns", b})
+	// a control that is LONGER than anything short that was processed before it
+	ml := new(dns.Msg)
+	ml.Id = 0x424d
+	ml.RecursionDesired = true
+	ml.Question = []dns.Question{{Name: strings.Repeat("benign-long-label-0123456789abcdef.", 6) + "example.", Qtype: dns.TypeAAAA, Qclass: dns.ClassINET}}
+	ml.SetEdns0(1232, true)
+	// (not a padding option: replies to padded queries are padded to a random length)
+	ml.IsEdns0().Option = append(ml.IsEdns0().Option, &dns.EDNS0_LOCAL{Code: dns.EDNS0LOCALSTART, Data: make([]byte, 200)})
+	bl, _ := ml.Pack()
+	vs = append(vs, c06Variant{"control-long", bl})
 	// an OPT cut in the middle of its RDATA
 	vs = append(vs, c06Variant{"cut-in-opt", b[:len(b)-1]}, c06Variant{"cut-opt-rdlen", append(append([]byte{}, b[:len(b)-2]...), 0x00, 0x30)})
 	return vs
@@ -206,6 +216,16 @@ func TestVerifC06Server(t *testing.T) {
 			for _, v := range c06Variants() {
 				c06Flood(warm, path, func(i int) []byte { return c06Sentinel(uint16(i)) }, flood)
 				c06Flood(fresh, path, func(int) []byte { return zero }, 8)
+				// ... and SHORT messages over the other plain transports and then over this one (whatever
+				// was processed before: also messages shorter than `next`, also on another socket of the
+				// same server)
+				short := func(i int) []byte { return c06Header(uint16(0x3000+i), 0, 0, 0, 0) }
+				for _, other := range []string{"tcp", "udp"} {
+					if other != path {
+						c06Flood(warm, other, short, 8)
+					}
+				}
+				c06Flood(warm, path, short, 8)
 				hw.take()
 				hf.take()
 				rw := warm.SendRaw(path, v.msg)
